@@ -445,7 +445,8 @@ func keybaseAll(keysL []keyT, passes []passT) {
 
 // keybaseNearMiss: a key imported with passphrase base; Sign with every near-miss of base must fail; ExportPrivKey,
 // Delete (key must still be there afterwards) and Rotate (new-passphrase callback must not run) with a near-miss must
-// fail too (quick: Sign for the whole family of one base, the other three for a 3-variant subset; thorough: everything).
+// fail too (quick: one base, Sign for the first variant of every group + the common paddings, the other three calls
+// for a 3-variant subset; thorough: every base, every variant, all four calls).
 func keybaseNearMiss(k keyT, passes []passT) {
 	type nt struct {
 		ord   int64
@@ -469,10 +470,16 @@ func keybaseNearMiss(k keyT, passes []passT) {
 		}
 		r.Eval()
 		nBcrypt.Add(1)
+		groupSeen := map[string]bool{}
 		for vi, v := range nearMisses(b.val, r.Thorough()) {
 			if bcryptKeyMaterial(v.val) == bcryptKeyMaterial(b.val) {
 				outcome("keybase:near-miss_not_tried(known bcrypt aliasing finding)")
 				continue
+			}
+			first := !groupSeen[v.group]
+			groupSeen[v.group] = true
+			if r.Quick() && !first && !nearQuickKeybaseVariants[v.name] {
+				continue // quick: the first variant of every group + the line-end / space paddings; the armor phase has the whole family
 			}
 			full := r.Thorough() || v.name == "trailing LF" || v.name == "leading space" || strings.HasPrefix(v.name, "case of letter at byte 0 ")
 			t := nt{int64(bi*1000 + vi), b, v, kb, name, full, nil}
